@@ -117,6 +117,24 @@ theorem int_float_refused (w : IntTy) (h128 : ¬ is128 w = true) (b : UInt64)
 
 end
 
+section
+variable {env : Env} (hflt : env.flt = false) (hapE : env.cfg.ap = false) (ext : Spec.Program.Ext) (hext : Spec.Program.ExtOK ext)
+include hflt hapE hext
+
+/-- **`deserialize_f32` on the text of an `f32`, default build**: the literal is converted as an `f64` (`y`) and cast by
+    serde's visitor (`y as f32`) -/
+theorem deNumber_f32_default (hfr : env.cfg.fr = false) (b : UInt32) (hb : Spec.Program.finite32 b = true) (y : UInt64)
+    (hy : Spec.Canon.numOf (specCfg env.cfg) (splitNumber (ext.ryu32 b)) = some (.float y))
+    (rest : Bytes) (pos : Nat) (hs : SepOK rest) :
+    deNumber env .f32 (ext.ryu32 b ++ rest) pos = .ok (.f32 (FromValue.f64ToF32 y)) rest (pos + (ext.ryu32 b).length) := by
+  obtain ⟨hwf, hbytes⟩ := SJ.Proofs.Number.splitNumber_of_isNumber _ (hext.ryu32_number b hb)
+  have := deNumber_lit hflt hapE .f32 (by rw [hfr]; rfl) _ hwf _ hy rest pos hs
+  rw [hbytes] at this
+  rw [this]
+  simp [visitNumber, FromValue.numberF32, ofVisit, fixPos]
+
+end
+
 /-- an integer a `Number` can hold (`PosInt(u64)`, `NegInt(i64)`): what an `f64` target needs of an integer value (a typed
     128-bit integer beyond that range is read as a float by `parse_integer`, not necessarily the one `as f64` gives) -/
 def IntRangeOK (v : JV) : Prop :=
